@@ -549,6 +549,9 @@ def inline_policy(facts):
     at = atoms()
 
     def pol(path):
+        if path.startswith("closure:"):
+            b = facts.closure(path[len("closure:"):])
+            return b if b is not None and len(b.blocks) <= 40 else None
         p = strip_generics(path)
         last = p.split("::")[-1]
         if last in at or last.startswith("{closure"):
